@@ -138,5 +138,5 @@ def run(repo, seed, tier):
                     'those Python accepts), each class defining a class attribute, a method and an instance attribute '
                     'assigned in __init__ / in a setup method / in a closure of a method; receiver = instance of the last '
                     'class; fragments "", "me", "Ca"; oracle = dir() of the executed object',
-            'samples': [render(c[0], c[1]) for c in cases[:2]], 'violations': [v[0] for v in seen.values()][:10],
+            'samples': [render(c[0], c[1]) for c in cases[:2]], 'violations': violations[:300],
             'violation_counts': {k: len(v) for k, v in seen.items()}}
